@@ -498,6 +498,37 @@ def crc_fact(st):
     return None
 
 
+ACCESSORS = ("frame_data", "data", "crc", "message_number", "data_len", "frame_len")
+
+
+def observe(it, fin, fr):
+    """{accessor name: abstract result} for the MessageFrame accessors that can be evaluated on the frame value fr in state fin"""
+    obs = {}
+    for nm in ACCESSORS:
+        g = it.prog.fn("message_frame::MessageFrame::" + nm)
+        if g is None or g.rec.get("argc", 0) != 1:
+            continue
+        s2 = fin.clone()
+        s2.locals[-90] = bitsem._copy_val(fr, {})
+        try:
+            r = it.exec_fn(s2, g, [Ref(("local", -90, (), s2.frame))])
+        except Panic as e:
+            obs["!panic"] = obs.get("!panic", []) + ["%s() can panic on a frame new() builds: %s" % (nm, e)]
+            continue
+        except (Undecided, AttributeError, TypeError, KeyError, IndexError):
+            continue
+        for _ in range(3):
+            if isinstance(r, Ref) and r.loc[0] == "local":
+                try:
+                    r = it._get(s2, r.loc)
+                except Undecided:
+                    break
+        if isinstance(r, UBool) or r is None:
+            continue
+        obs[nm] = r
+    return obs
+
+
 def check(prog, field_names):
     """Returns {'partitions', 'paths', 'problems': [(category, text)], 'undecided': [text]}"""
     f = prog.fn(NEW)
@@ -586,10 +617,26 @@ def check(prog, field_names):
                 for e in extra:
                     prob("accept", "acceptance depends on %s" % e)
                 fr = ret.fields[0]
-                if not (isinstance(fr, Adt) and len(fr.fields) == len(field_names)):
+                if not isinstance(fr, Adt):
                     prob("out", "Ok payload is not a MessageFrame built in place")
                     continue
-                vals = dict(zip(field_names, fr.fields))
+                # what a caller can observe: the accessors evaluated on the frame just built (so the layout of the struct - which values are
+                # stored and which are derived on demand - does not matter); an accessor outside the modelled subset falls back to the field
+                obs = observe(it, fin, fr)
+                for ptxt in obs.pop("!panic", []):
+                    prob("panic", ptxt)
+                if "observed" not in out:
+                    out["observed"] = set(obs)
+                else:
+                    out["observed"] &= set(obs)          # observed on every Ok path
+                if len(fr.fields) != len(field_names) and not {"frame_data", "data", "crc", "message_number"} <= set(obs):
+                    prob("out", "Ok payload is not a MessageFrame built in place")
+                    continue
+                vals = dict(zip(field_names, fr.fields)) if len(fr.fields) == len(field_names) else {}
+                vals.update(obs)
+                for nm, want_len in (("data_len", (1, 0)), ("frame_len", (1, 6))):
+                    if nm in obs and lin_parts(obs[nm]) != want_len:
+                        prob("out", "%s() is %s, expected %s" % (nm, obs[nm], mklin(*want_len)))
                 fd = vals.get("frame_data")
                 if not (isinstance(fd, Ref) and fd.loc[0] == "slice" and lin_parts(fd.loc[1]) == (0, 0) and fd.loc[2] is not None and lin_parts(fd.loc[2]) == (1, 6)):
                     prob("out", "frame_data field is %s, expected input[0 .. L+6]" % (getattr(fd, "loc", fd),))
@@ -712,6 +759,9 @@ def check_iter(prog):
     st.self_fields = Tup(obj)
     st.locals[-50] = Ref(("self", ()))
     st.locals[1] = Ref(("local", -50, (), 0))
+    # object invariant index <= data.len(): established by MsgFrameIter::new (index = 0), preserved by the only store to index,
+    # `index += consumed`, because the scanner never reports more than the length of the slice it was given (S-ok / S-inc / S-end)
+    st.len_lb = Lin(1, 0)
     try:
         it.run(st)
     except Panic as e:
